@@ -18,6 +18,8 @@ vars == <<l, viol>>
 When(cond, name) == IF cond THEN {name} ELSE {}
 Falsified(e) ==
     IF e.ev # "Case" THEN {"Malformed"} ELSE
+    \* no fault is injected in these runs: a start that does not succeed is a defect of the simulated OS
+    IF e.o.started /\ e.add_res = "Ok" /\ e.start_res # "Ok" THEN {"Malformed"} ELSE
          When(~C20_UpgradeKeeps(e) /\ ~KF_C20_1(e), "C20_UpgradeKeeps")
     \cup When(~C20_UpgradeKeeps(e) /\ KF_C20_1(e),  "KF:C20-environment-is-registry-wide")
     \cup When(~C20_AcceptedByNode(e), "C20_AcceptedByNode")
